@@ -14,24 +14,10 @@ def case_stream(tier, seed, salt, n_prog, n_list, bool_only=False):
     for src, args, ret in CORPUS_PROGS:
         for prof in ("default", "fast"):
             yield {"kind": "prog", "src": src, "args": args, "ret": ret, "profile": prof, "origin": "corpus", "feat": []}
-    # fixed corpus: identical for every VERIF_SEED, so that failures of a listed mechanism are keyed by INPUT there
-    frng = random.Random(424242 + salt)
-    fcfgs = [P.small_cfg(max_bits=5), P.small_cfg(max_bits=7, depth=3)]
-    if bool_only:
-        for c in fcfgs:
-            c.ret_kinds = ["bool"]
-    fpgs = [P.PG(frng, c) for c in fcfgs]
-    for i in range(220):
-        pr = fpgs[i % 2].program()
-        yield dict(pr, kind="prog", profile="default" if i % 3 else "fast", origin="fixed")
-    for i in range(320):
-        if frng.random() < 0.3:
-            c = G.pattern_lists(frng, 1)[0]
-        else:
-            c = G.rand_list(frng, n_in=frng.randint(2, 5), depth=frng.choice([2, 3, 3]), ops=["and", "or", "xor", "not"] + (["ite"] if frng.random() < 0.3 else []), n_ret=1 if bool_only else None)
-        if bool_only:
-            c["list"] = [x for x in c["list"] if not x[0].startswith("_ret")] + [["_ret", [x for x in c["list"] if x[0].startswith("_ret")][0][1]]]
-        yield dict(c, kind="list", profile="default" if i % 2 else "fast", evaluate=frng.random() < 0.8, origin="fixed")
+    # fixed corpus: a committed data file (identical for every VERIF_SEED and immune to generator edits), so that
+    # failures of a listed mechanism are keyed by INPUT there (known_inputs.json)
+    for c in load_fixed(bool_only):
+        yield c
     cfgs = [P.small_cfg(max_bits=6), P.small_cfg(max_bits=8, depth=3), P.Cfg(max_bits=9, depth=3, stmts=3, mul_max_w=3)]
     if bool_only:
         for c in cfgs:
@@ -40,6 +26,9 @@ def case_stream(tier, seed, salt, n_prog, n_list, bool_only=False):
     for i in range(n_prog):
         pr = pgs[i % len(pgs)].program()
         yield dict(pr, kind="prog", profile="default" if i % 3 else "fast", origin="random")
+    if not bool_only:
+        for i, pr in enumerate(P.fixed_char_programs(rng, max(30, n_prog // 10))):
+            yield dict(pr, kind="prog", profile="default" if i % 2 else "fast", origin="fixed_char")
     ops = ["and", "or", "xor", "not"]
     for i in range(n_list):
         r = rng.random()
@@ -116,3 +105,40 @@ def compile_case(case, uncompute):
     returns = Arg("_ret", rett, rets)
     qc = to_quantum(name="f", args=args, returns=returns, exprs=lst, compiler="internal", uncompute=uncompute)
     return qc, list(inputs), rets, lst, None
+
+
+FIXED_PATH = __import__("os").path.join(__import__("os").path.dirname(__import__("os").path.abspath(__file__)), "fixed_corpus.json")
+
+
+def load_fixed(bool_only):
+    import json
+
+    with open(FIXED_PATH) as f:
+        d = json.load(f)
+    return d["bool" if bool_only else "any"]
+
+
+def make_fixed():
+    """(re)create the committed fixed corpus; run by tools/mkfixedcorpus.py only"""
+    out = {}
+    for key, bool_only in (("any", False), ("bool", True)):
+        frng = random.Random(424242 + (1 if bool_only else 0))
+        fcfgs = [P.small_cfg(max_bits=5), P.small_cfg(max_bits=7, depth=3)]
+        if bool_only:
+            for c in fcfgs:
+                c.ret_kinds = ["bool"]
+        fpgs = [P.PG(frng, c) for c in fcfgs]
+        cases = []
+        for i in range(220):
+            pr = fpgs[i % 2].program()
+            cases.append(dict(pr, kind="prog", profile="default" if i % 3 else "fast", origin="fixed"))
+        for i in range(320):
+            if frng.random() < 0.3:
+                c = G.pattern_lists(frng, 1)[0]
+            else:
+                c = G.rand_list(frng, n_in=frng.randint(2, 5), depth=frng.choice([2, 3, 3]), ops=["and", "or", "xor", "not"] + (["ite"] if frng.random() < 0.3 else []), n_ret=1 if bool_only else None)
+            if bool_only:
+                c["list"] = [x for x in c["list"] if not x[0].startswith("_ret")] + [["_ret", [x for x in c["list"] if x[0].startswith("_ret")][0][1]]]
+            cases.append(dict(c, kind="list", profile="default" if i % 2 else "fast", evaluate=frng.random() < 0.8, origin="fixed"))
+        out[key] = cases
+    return out
